@@ -1,9 +1,197 @@
 (* C04 — HD key derivation conforms to BIP32 on every seed and path.
-   Only statements; every proof is `exact <lemma proved elsewhere>`. *)
-From BU Require Import Lib.Bytes Gen.Nets HD.HD HD.HDGuards.
+   Only statements; every proof is `exact <lemma proved elsewhere>` (HD/HDProofs.v, HD/HDGuards.v).
 
-Theorem C04_guard_depth : forall point hmac512 point_of_scalar padd pzero ser_point parse_point hash160 k i,
-  xk_depth k = 255 ->
-  child point hmac512 point_of_scalar padd pzero ser_point parse_point hash160 k i = Err E_depth.
-Proof. exact guard_depth. Qed.
+   Model: HD/HD.v (hdkeychain/extendedkey.go).  Specification: HD/Bip32Spec.v (the BIP's text over Z).
+   The dependencies are the Section variables below; each theorem carries only the hypotheses its proof
+   uses (see the `Check`-able statements after the Section closes).
+
+   The BIP marks a child invalid when parse256(IL) >= n or k_i = 0 (K_i = infinity).  The code tests
+   parse256(IL) >= n or parse256(IL) = 0 instead.  The per-step and per-path theorems therefore carry the
+   premises "IL <> 0" and "k_i <> 0 (K_i <> infinity)"; C04_child_zero_gap / C04_child_ilzero_gap exhibit
+   both differences with an artificial HMAC.  A real input needs an HMAC-SHA512 output with a prescribed
+   256-bit half. *)
+From BU Require Import Lib.Bytes Gen.Nets HD.HD HD.HDRun HD.HDGuards HD.Bip32Spec HD.HDProofs HD.HDExamples.
+
+Section C04.
+Variable point : Type.
+Variable hmac512 : list N -> list N -> list N.      (* HMAC-SHA512 key data *)
+Variable point_of_scalar : Z -> point.              (* k * G *)
+Variable padd : point -> point -> point.
+Variable pzero : point -> bool.                     (* Go's "x = 0 or y = 0", i.e. the representation of infinity *)
+Variable ser_point : point -> list N.               (* SerializeCompressed *)
+Variable parse_point : list N -> res point.         (* bchec.ParsePubKey *)
+Variable hash160 : list N -> list N.
+Variable dsha : list N -> list N.
+
+Hypothesis H_hmac_len : forall k d, length (hmac512 k d) = 64%nat.
+Hypothesis H_hmac_bytes : forall k d, Bytes (hmac512 k d).
+Hypothesis H_h160_len : forall m, length (hash160 m) = 20%nat.
+Hypothesis H_ser_len : forall P, length (ser_point P) = 33%nat.
+Hypothesis H_parse_ser : forall P, pzero P = false -> parse_point (ser_point P) = Ok P.
+Hypothesis H_mul_nonzero : forall a, (0 < a < Bip32Spec.n)%Z -> pzero (point_of_scalar a) = false.
+Hypothesis H_hom : forall a b, (0 <= a < Bip32Spec.n)%Z -> (0 <= b < Bip32Spec.n)%Z ->
+  point_of_scalar ((a + b) mod Bip32Spec.n) = padd (point_of_scalar a) (point_of_scalar b).
+
+Local Notation child := (HD.child point hmac512 point_of_scalar padd pzero ser_point parse_point hash160).
+Local Notation neuter := (HD.neuter point point_of_scalar ser_point).
+Local Notation derive := (HD.derive point hmac512 point_of_scalar padd pzero ser_point parse_point hash160).
+Local Notation derive_from_seed := (HD.derive_from_seed point hmac512 point_of_scalar padd pzero ser_point parse_point hash160).
+Local Notation to_string := (HD.to_string point point_of_scalar ser_point dsha).
+Local Notation address := (HD.address point point_of_scalar ser_point hash160).
+Local Notation embed_pub := (embed_pub point ser_point).
+Local Notation embed_pub_res := (embed_pub_res point ser_point).
+Local Notation I_priv := (I_priv point hmac512 point_of_scalar ser_point).
+Local Notation I_pub := (I_pub point hmac512 ser_point).
+Local Notation child_priv_node := (child_priv_node point hmac512 point_of_scalar ser_point hash160).
+Local Notation child_pub_node := (child_pub_node point hmac512 point_of_scalar padd pzero ser_point hash160).
+Local Notation derive_priv := (derive_priv point hmac512 point_of_scalar ser_point hash160).
+Local Notation derive_pub := (derive_pub point hmac512 point_of_scalar padd pzero ser_point hash160).
+Local Notation nogap_priv := (nogap_priv point hmac512 point_of_scalar ser_point hash160).
+Local Notation nogap_pub := (nogap_pub point hmac512 point_of_scalar padd pzero ser_point hash160).
+Local Notation reachable := (reachable point hmac512 point_of_scalar padd pzero ser_point parse_point hash160).
+
+(* one private step: Child on the Go form of a specification node IS the Go form of CKDpriv's result
+   (all seven fields: version, key bytes = ser256(k_i), chain code, fingerprint, depth, child number, flag) *)
+Theorem C04_child_priv_conforms : forall ver nd i,
+  (0 < s_k nd < Bip32Spec.n)%Z -> (0 <= s_depth nd < 255)%Z -> (0 <= i < 2 ^ 32)%Z ->
+  let il := parse256 (IL (I_priv (s_k nd) (s_c nd) i)) in
+  il <> 0%Z ->
+  ((il < Bip32Spec.n)%Z -> ((il + s_k nd) mod Bip32Spec.n <> 0)%Z) ->
+  child (embed_priv ver nd) (Z.to_N i) = embed_res (embed_priv ver) (child_priv_node nd i).
+Proof. exact (child_priv_conforms point hmac512 point_of_scalar padd pzero ser_point parse_point hash160 H_hmac_len H_ser_len). Qed.
+
+(* one public step *)
+Theorem C04_child_pub_conforms : forall ver nd i,
+  pzero (p_K nd) = false -> (0 <= p_depth nd < 255)%Z -> (0 <= i < 2 ^ 31)%Z ->
+  let il := parse256 (IL (I_pub (p_K nd) (p_c nd) i)) in
+  il <> 0%Z ->
+  ((il < Bip32Spec.n)%Z -> pzero (padd (point_of_scalar il) (p_K nd)) = false) ->
+  child (embed_pub ver nd) (Z.to_N i) = embed_pub_res ver (child_pub_node nd i).
+Proof. exact (child_pub_conforms point hmac512 point_of_scalar padd pzero ser_point parse_point hash160 H_hmac_len H_ser_len H_parse_ser H_mul_nonzero). Qed.
+
+(* NewMaster on a seed of legal length *)
+Theorem C04_master_conforms : forall seed nt,
+  seed_length_ok seed ->
+  HD.new_master hmac512 seed nt =
+    match master_node hmac512 seed with Some nd => Ok (embed_priv (hd_priv_id nt) nd) | None => Err E_unusable end.
+Proof. exact (master_conforms hmac512 H_hmac_len H_hmac_bytes). Qed.
+
+(* any path from any legal seed (fold of Child after NewMaster) *)
+Theorem C04_path_conforms : forall seed nt path,
+  seed_length_ok seed -> (length path <= 255)%nat -> Forall index_ok path ->
+  match master_node hmac512 seed with Some m => nogap_priv m path | None => True end ->
+  derive_from_seed seed nt (map Z.to_N path) =
+    match master_node hmac512 seed with
+    | Some m => embed_res (embed_priv (hd_priv_id nt)) (derive_priv m path)
+    | None => Err E_unusable
+    end.
+Proof. exact (seed_path_conforms point hmac512 point_of_scalar padd pzero ser_point parse_point hash160 H_hmac_len H_hmac_bytes H_ser_len). Qed.
+
+(* any non-hardened path from any public node *)
+Theorem C04_path_conforms_pub : forall ver path nd,
+  pzero (p_K nd) = false -> (0 <= p_depth nd)%Z -> (p_depth nd + Z.of_nat (length path) <= 255)%Z ->
+  Forall normal_index path -> nogap_pub nd path ->
+  derive (embed_pub ver nd) (map Z.to_N path) = embed_pub_res ver (derive_pub nd path).
+Proof. exact (path_conforms_pub point hmac512 point_of_scalar padd pzero ser_point parse_point hash160 H_hmac_len H_ser_len H_parse_ser H_mul_nonzero). Qed.
+
+(* what the Go form of a specification node prints: the BIP's serialisation, identifier, and N() *)
+Theorem C04_observables_priv : forall ver pubver nd,
+  (0 <= s_k nd < Bip32Spec.n)%Z -> priv_to_pub_id ver = Ok pubver ->
+  to_string (embed_priv ver nd) = string_priv dsha ver nd /\
+  address (embed_priv ver nd) = Ok (identifier point ser_point hash160 (point_of_scalar (s_k nd))) /\
+  neuter (embed_priv ver nd) = Ok (embed_pub pubver (neuter_node point point_of_scalar nd)).
+Proof.
+  intros ver pubver nd Hk Hv.
+  exact (conj (string_priv_conforms point point_of_scalar ser_point dsha ver nd)
+        (conj (address_priv_conforms point point_of_scalar ser_point hash160 H_h160_len ver nd Hk)
+              (neuter_conforms point point_of_scalar ser_point ver pubver nd Hk Hv))).
+Qed.
+
+Theorem C04_observables_pub : forall ver nd,
+  to_string (embed_pub ver nd) = string_pub point ser_point dsha ver nd /\
+  address (embed_pub ver nd) = Ok (identifier point ser_point hash160 (p_K nd)).
+Proof.
+  intros ver nd.
+  exact (conj (string_pub_conforms point point_of_scalar ser_point dsha H_ser_len ver nd)
+              (address_pub_conforms point point_of_scalar ser_point hash160 H_h160_len ver nd)).
+Qed.
+
+(* every network's private version is registered with its public version, so Neuter cannot fail on them *)
+Theorem C04_registered_ids : forall nt, In nt all_nets -> priv_to_pub_id (hd_priv_id nt) = Ok (hd_pub_id nt).
+Proof. exact priv_to_pub_id_net. Qed.
+
+(* |key| = 32 (private) / 33 (public) on everything reachable by NewMaster, Child, Neuter *)
+Theorem C04_key_length_invariant : forall k,
+  reachable k -> length (xk_key k) = if xk_priv k then 32%nat else 33%nat.
+Proof. exact (key_length_invariant point hmac512 point_of_scalar padd pzero ser_point parse_point hash160 H_hmac_len H_ser_len). Qed.
+
+(* Child (Neuter k) i = Neuter (Child k i) for i < 2^31 (both sides in the error monad) *)
+Theorem C04_neuter_commutes : forall k i v,
+  xk_priv k = true -> length (xk_key k) = 32%nat -> 0 < set_bytes (xk_key k) < secp_nN ->
+  i < 2 ^ 31 -> priv_to_pub_id (xk_version k) = Ok v ->
+  (do kn <- neuter k ;; child kn i) = (do c <- child k i ;; neuter c).
+Proof. exact (neuter_commutes point hmac512 point_of_scalar padd pzero ser_point parse_point hash160 H_hmac_len H_ser_len H_parse_ser H_mul_nonzero H_hom). Qed.
+
+(* guards *)
+Theorem C04_guard_depth : forall k i, xk_depth k = 255 -> child k i = Err E_depth.
+Proof. exact (guard_depth point hmac512 point_of_scalar padd pzero ser_point parse_point hash160). Qed.
+
+Theorem C04_guard_hardened_from_public : forall k i,
+  xk_depth k <> 255 -> xk_priv k = false -> 2 ^ 31 <= i -> child k i = Err E_hardpub.
+Proof. exact (guard_hardened_from_public point hmac512 point_of_scalar padd pzero ser_point parse_point hash160). Qed.
+
+Theorem C04_guard_seed_length : forall seed nt,
+  (length seed < 16 \/ 64 < length seed)%nat -> HD.new_master hmac512 seed nt = Err E_seedlen.
+Proof. exact (guard_seed_length hmac512). Qed.
+
+End C04.
+
+Print Assumptions C04_child_priv_conforms.
+Print Assumptions C04_child_pub_conforms.
+Print Assumptions C04_master_conforms.
+Print Assumptions C04_path_conforms.
+Print Assumptions C04_path_conforms_pub.
+Print Assumptions C04_observables_priv.
+Print Assumptions C04_observables_pub.
+Print Assumptions C04_registered_ids.
+Print Assumptions C04_key_length_invariant.
+Print Assumptions C04_neuter_commutes.
 Print Assumptions C04_guard_depth.
+Print Assumptions C04_guard_hardened_from_public.
+Print Assumptions C04_guard_seed_length.
+
+(* the k_i = 0 gap (code returns the all-zero key; BIP: invalid) and the IL = 0 gap (code: ErrInvalidChild; BIP: valid) *)
+Theorem C04_child_zero_gap :
+  exists hmac : list N -> list N -> list N,
+    HD.child Z hmac gap_point_of gap_padd gap_pzero gap_ser gap_parse gap_h160 (embed_priv [4;136;173;228] gap_node) 0
+      = Ok (mk_xkey [4;136;173;228] (repeat 0 32) (repeat 9 32) (repeat 0 4) 1 0 true) /\
+    child_priv_node Z hmac gap_point_of gap_ser gap_h160 gap_node 0 = None.
+Proof. exact child_zero_gap. Qed.
+Print Assumptions C04_child_zero_gap.
+
+Theorem C04_child_ilzero_gap :
+  exists hmac : list N -> list N -> list N,
+    HD.child Z hmac gap_point_of gap_padd gap_pzero gap_ser gap_parse gap_h160 (embed_priv [4;136;173;228] gap_node) 0
+      = Err E_invalid_child /\
+    child_priv_node Z hmac gap_point_of gap_ser gap_h160 gap_node 0 <> None.
+Proof. exact child_ilzero_gap. Qed.
+Print Assumptions C04_child_ilzero_gap.
+
+(* Examples: BIP32 test vector 1 through the model (tabulated dependencies), and the theorems' premises on it *)
+Example C04_vector1_m_0H_1 :
+  match tv1_derive [2 ^ 31; 1] with
+  | Ok k => r_to_string tv1_oracle k = xprv_m_0H_1 /\
+            (match r_neuter tv1_oracle k with Ok nk => r_to_string tv1_oracle nk = xpub_m_0H_1 | _ => False end) /\
+            r_address tv1_oracle k = Ok h160_m_0H_1
+  | _ => False
+  end.
+Proof. exact tv1_m_0H_1. Qed.
+
+Example C04_vector1_premises :
+  match tv1_master with
+  | Some m =>
+      (0 < s_k m < Bip32Spec.n)%Z /\
+      HDProofs.nogap_priv pt (r_hmac tv1_oracle) (r_mul tv1_oracle) r_ser (r_h160 tv1_oracle) m [(2 ^ 31)%Z; 1%Z]
+  | None => False
+  end.
+Proof. exact tv1_premises. Qed.
